@@ -416,3 +416,47 @@ func Verif_C02_B67_Step() {
 	}
 	vsym.Reach("end")
 }
+
+// B5/B6 kernel: raftLog.slice / entries with a size limit - whatever the limit, the result is a non-empty
+// contiguous prefix of the log's entries from lo (stored part, unstable part, or both).
+func Verif_C02_B6_SliceContiguousPrefix() {
+	s := vShape{N: 1, Role: StateLeader, Prod: true, SimplePr: true, ConcIdx: true}
+	switch vsym.Choose("log", 3) {
+	case 0:
+		s.NStored, s.NUnstable = 2, 1
+	case 1:
+		s.NStored, s.NUnstable = 2, 2
+	case 2:
+		s.NStored, s.NUnstable = 3, 0
+	}
+	v := vMkRaft(s)
+	rl := v.r.raftLog
+	// entry payloads of different sizes: optionally the second stored entry is much larger than its neighbours
+	if vsym.Choose("bigsecond", 2) == 1 {
+		v.st.ents[2].Data = make([]byte, 40)
+	}
+	first, last := rl.firstIndex(), rl.lastIndex()
+	lo := first + uint64(vsym.Choose("lo", 3))
+	hi := lo + 1 + uint64(vsym.Choose("n", 3))
+	if hi > last+1 {
+		vsym.Reach("end")
+		return
+	}
+	maxSize := uint64(noLimit)
+	if vsym.Choose("limited", 2) == 1 {
+		maxSize = vsym.U64("maxsize")
+		vsym.Assume(maxSize < 1<<20)
+	}
+	ents, err := rl.slice(lo, hi, maxSize)
+	vsym.Assert(err == nil, "slice succeeds inside [firstIndex, lastIndex+1]")
+	vsym.Assert(len(ents) >= 1 && uint64(len(ents)) <= hi-lo, "slice returns at least one and at most hi-lo entries")
+	for i := range ents {
+		vsym.Assert(ents[i].Index == lo+uint64(i), "slice returns a contiguous run starting at lo (no hole between the stored and the unstable part)")
+		t, terr := rl.term(lo + uint64(i))
+		vsym.Assert(terr == nil && t == ents[i].Term, "slice returns the log's entries")
+	}
+	if maxSize == noLimit {
+		vsym.Assert(uint64(len(ents)) == hi-lo, "without a size limit slice returns all of [lo, hi)")
+	}
+	vsym.Reach("end")
+}
